@@ -59,7 +59,8 @@ Record doc := Doc { doc_file : N; defs : list def }.   (* doc_file = document.po
 (** what is NOT modelled, per definition: printed types and the runtime JSON *)
 Record defbody := Body {
   b_type : list wop;      (* operation: result type; fragment: fragment type *)
-  b_vars : list wop;      (* operation: variables type; fragment: unused *)
+  b_vars : list wop;      (* operation: variables type as printed with allow_undefined_as_optional_input = true; fragment: unused *)
+  b_vars_strict : list wop; (* the same with allow_undefined_as_optional_input = false *)
   b_runtime : str         (* print_{operation,fragment}_runtime: one chunk of JSON *)
 }.
 
@@ -84,8 +85,12 @@ Record export_text := ExportT {
   et_result : option bool;          (* operationResultType *)
   et_vars : option bool             (* variablesType *)
 }.
+Record type_text := TypeT {
+  tt_allow_undefined : option bool  (* allowUndefinedAsOptionalInput *)
+}.
 Record generate_text := GenT {
   gt_mode : option gmode;           (* mode *)
+  gt_type : option type_text;       (* type: section *)
   gt_name : option name_text;       (* name: section *)
   gt_export : option export_text    (* export: section *)
 }.
@@ -96,6 +101,7 @@ Definition cfg_text := option generate_text.
 Record gen_export := GenExport { ge_default : bool; ge_result : bool; ge_vars : bool }.
 Record config := Config {
   cf_mode : gmode;
+  cf_allow_undefined : bool;        (* GenerateTypeConfig.allow_undefined_as_optional_input *)
   cf_name : name_text;              (* GenerateNameConfig: every field is an Option *)
   cf_export : gen_export
 }.
@@ -109,7 +115,15 @@ Definition parse_export (e : export_text) : gen_export :=
             (match et_result e with Some b => b | None => ge_result export_default end)
             (match et_vars e with Some b => b | None => ge_vars export_default end).
 
-Definition config_default : config := Config WithLoaderTS5_0 name_default export_default.
+(* impl Default for GenerateTypeConfig: allow_undefined_as_optional_input = true; #[serde(default)] on the struct *)
+Definition allow_undefined_default : bool := true.
+Definition parse_type (t : option type_text) : bool :=
+  match t with
+  | Some (TypeT (Some b)) => b
+  | _ => allow_undefined_default
+  end.
+
+Definition config_default : config := Config WithLoaderTS5_0 allow_undefined_default name_default export_default.
 
 (** [parse_config], generate part *)
 Definition parse_config (t : cfg_text) : config :=
@@ -117,6 +131,7 @@ Definition parse_config (t : cfg_text) : config :=
   | None => config_default
   | Some g =>
       Config (match gt_mode g with Some m => m | None => WithLoaderTS5_0 end)
+             (parse_type (gt_type g))
              (match gt_name g with Some n => n | None => name_default end)
              (match gt_export g with Some e => parse_export e | None => export_default end)
   end.
@@ -162,12 +177,13 @@ Record type_opts := TypeOpts {
   typed_document_node_source : str;
   variables_type_suffix : str;
   operation_result_type_suffix : str;
-  fragment_type_suffix : str
+  fragment_type_suffix : str;
+  allow_undefined_as_optional_input : bool
 }.
 
 Definition type_default : type_opts :=
   TypeOpts base_default false (s "Schema") (s "") (s "@graphql-typed-document-node/core")
-           (s "Variables") (s "Result") (s "").
+           (s "Variables") (s "Result") (s "") true.
 
 Definition mode_eqb (a b : gmode) : bool :=
   match a, b with
@@ -185,7 +201,9 @@ Definition type_from_config (c : config) : type_opts :=
            (typed_document_node_source type_default)
            (clone_into (nt_vars_sfx n) (variables_type_suffix type_default))
            (clone_into (nt_result_sfx n) (operation_result_type_suffix type_default))
-           (clone_into (nt_ftype_sfx n) (fragment_type_suffix type_default)).
+           (clone_into (nt_ftype_sfx n) (fragment_type_suffix type_default))
+           (* result.allow_undefined_as_optional_input = config.generate.type.allow_undefined_as_optional_input *)
+           (cf_allow_undefined c).
 
 (* OperationJSPrinterOptions::from_config: only the base options *)
 Definition js_from_config (c : config) : base_opts := base_from_config c.
@@ -300,6 +318,11 @@ Definition dts_header (t : type_opts) : list wop :=
 Definition decl_prefix (t : type_opts) (exported : bool) : list wop :=
   if exported then [W k_export] else if negb (print_values t) then [W k_declare] else [].
 
+(* get_type_for_variable_definitions reads options.allow_undefined_as_optional_input: the printed
+   variables type is one of the two recorded bodies *)
+Definition vars_body (t : type_opts) (b : defbody) : list wop :=
+  if allow_undefined_as_optional_input t then b_vars b else b_vars_strict b.
+
 Definition dts_operation (t : type_opts) (o : base_opts) (exported : bool) (k : opkind)
     (name : option (str * pos)) (p sel : pos) (b : defbody) : list wop :=
   let np := name_pos name p in
@@ -312,7 +335,7 @@ Definition dts_operation (t : type_opts) (o : base_opts) (exported : bool) (k : 
   ++ [W k_semi2]
   ++ (if export_input_type o then [W k_export] else [])
   ++ [W k_type; WF input_variable_name np nn; W k_eq]
-  ++ b_vars b
+  ++ vars_body t b
   ++ [W k_semi2]
   ++ decl_prefix t exported
   ++ [W k_const; WF (operation_var o k name) np nn; WF k_colon sel None; W k_tdn;
@@ -488,7 +511,7 @@ Definition kw_free (ops : list wop) : bool := forallb (fun o => negb (is_kw o)) 
 
 (** the unmodelled bodies contain no chunk equal to an export keyword *)
 Definition body_ok (b : defbody) : bool :=
-  kw_free (b_type b) && kw_free (b_vars b) && negb (is_kw (W (b_runtime b))).
+  kw_free (b_type b) && kw_free (b_vars b) && kw_free (b_vars_strict b) && negb (is_kw (W (b_runtime b))).
 Definition bodies_ok (B : list defbody) : bool := forallb body_ok B.
 
 (** the two type names written as plain chunks inside [TypedDocumentNode<…>] are not, as a
